@@ -150,7 +150,9 @@ func (w *mgrWorld) Run(c *Ctx) {
 			{"PlayerCheck", func(id string) (string, error) { return e2s(w.mgr.PlayerCheck(id, pid)) }, func(e pt.TableEngine) (string, error) { return e2s(e.PlayerCheck(pid)) }, false},
 			{"PlayerFold", func(id string) (string, error) { return e2s(w.mgr.PlayerFold(id, pid)) }, func(e pt.TableEngine) (string, error) { return e2s(e.PlayerFold(pid)) }, false},
 			{"PlayerPass", func(id string) (string, error) { return e2s(w.mgr.PlayerPass(id, pid)) }, func(e pt.TableEngine) (string, error) { return e2s(e.PlayerPass(pid)) }, false},
-			{"SetUpTableGame", func(id string) (string, error) { return e2s(w.mgr.SetUpTableGame(id, 1, map[string]int{"a": 0, "b": 1})) }, func(e pt.TableEngine) (string, error) {
+			{"SetUpTableGame", func(id string) (string, error) {
+				return e2s(w.mgr.SetUpTableGame(id, 1, map[string]int{"a": 0, "b": 1}))
+			}, func(e pt.TableEngine) (string, error) {
 				e.SetUpTableGame(1, map[string]int{"a": 0, "b": 1})
 				return "", nil
 			}, false},
